@@ -6,6 +6,16 @@ package checks
 // All three use the lock-step RPC reference model (harness/model/rpc.go) with
 // differently weighted script generators.
 
+import (
+	"fmt"
+	"time"
+
+	"github.com/gammazero/nexus/v3/wamp"
+
+	"verif/harness/canon"
+	"verif/harness/sim"
+)
+
 func rpcCases(q, t int) func(string) int {
 	return func(tier string) int {
 		if tier == "thorough" {
@@ -28,6 +38,11 @@ func runRPCProp(c *Case, w rpcWeights, nt func(rr *rpcRun) bool) {
 		rr = runRPCScript(c, w, false)
 		if rr.run != nil {
 			c.NT = nt(rr)
+			if c.Index%2 == 0 {
+				blockedCallerEpilogue(c, rr.run.W, rr.realm.Name)
+			} else {
+				blockedCalleeEpilogue(c, rr.run.W, rr.realm.Name)
+			}
 			rr.run.Finish()
 		}
 	})
@@ -47,13 +62,13 @@ func init() {
 		ID: "C02", Cases: rpcCases(1600, 24000), Batch: rpcBatch,
 		Run: func(c *Case) {
 			runRPCProp(c, rpcWeights{register: 14, unregister: 3, call: 26, yield: 20, inverr: 8, cancel: 12, advance: 6, leave: 6, join: 2, foreign: 3,
-				progInv: 10, timeoutPct: 30, progPct: 30},
+				progInv: 10, timeoutPct: 40, progPct: 30, hotPct: 30},
 				func(rr *rpcRun) bool { return rr.run.Mon.NonHappyCloses > 0 })
 		},
 		Rule: "generated RPC scripts (3-7 sessions with random feature sets over all transports; REGISTER with every policy, CALL with timeout/receive_progress/progress, " +
 			"YIELD/ERROR by owner, non-owner, duplicate, late, CANCEL in every mode by owner/other/repeat, timer expiry, departures and meta kills) in lock-step against the per-call " +
-			"reply automaton + RPC model, clock finally advanced 3 h; non-trivial = >=1 call was closed by a non-happy trigger (cancel, timeout, departure, routing error)",
-		Required: []string{"RP9", "RP10", "RP13", "RP14", "RP15", "RP16", "RP17", "RP19", "CN1", "CN2", "CN3", "TO1"},
+			"reply automaton + RPC model, clock finally advanced 3 h; every 2nd case ends with a caller whose queue (1-3) is full when the final YIELD is processed and which reads again 20 ms later (RP21: exactly one final RESULT, payload intact); non-trivial = >=1 call was closed by a non-happy trigger (cancel, timeout, departure, routing error)",
+		Required: []string{"RP9", "RP10", "RP13", "RP14", "RP15", "RP16", "RP17", "RP19", "RP21", "CN1", "CN2", "CN3", "CN7", "TO1"},
 		Level:    "exploration",
 	})
 	register(&Prop{
@@ -82,4 +97,128 @@ func init() {
 		Required: []string{"CN1", "CN2", "CN3", "CN4", "CN5", "CN6", "TO1", "TO3"},
 		Level:    "exploration",
 	})
+}
+
+
+// blockedCallerEpilogue runs after the generated script, with two fresh
+// in-process sessions: the caller's outbound queue is full at the moment the
+// callee's final YIELD is processed, and the caller reads again 20 ms later,
+// far within the period during which the dealer retries a blocked RESULT. The
+// call must still end with that RESULT, payload intact.
+func blockedCallerEpilogue(c *Case, w *sim.World, realm string) {
+	q := 1 + c.Index/2%3
+	callee := w.AddPuppet(sim.PuppetSpec{Kind: sim.Local})
+	caller := w.AddPuppet(sim.PuppetSpec{Kind: sim.Local, QSize: q})
+	callee.Join(realm, wamp.Dict{"roles": sim.AllFeatures()})
+	caller.Join(realm, wamp.Dict{"roles": sim.AllFeatures()})
+	if callee.SID == 0 || caller.SID == 0 {
+		return // the realm does not admit plain local sessions
+	}
+	callee.Send(&wamp.Register{Request: 1, Options: wamp.Dict{}, Procedure: "zz.epilogue.proc"})
+	w.Wait()
+	caller.Send(&wamp.Call{Request: 7001, Options: wamp.Dict{"receive_progress": true}, Procedure: "zz.epilogue.proc", Arguments: wamp.List{"epilogue"}})
+	w.Wait()
+	var inv wamp.ID
+	for _, o := range callee.Take() {
+		if iv, ok := o.Msg.(*wamp.Invocation); ok {
+			inv = iv.Request
+		}
+	}
+	if inv == 0 {
+		return
+	}
+	caller.Take()
+	caller.Stall()
+	for k := 0; k < q; k++ { // exactly fills the caller's queue: the final YIELD is the first to find it full
+		callee.Send(&wamp.Yield{Request: inv, Options: wamp.Dict{"progress": true}, Arguments: wamp.List{"p", k}})
+	}
+	w.Wait()
+	token := fmt.Sprintf("final-%d", c.Index)
+	callee.Send(&wamp.Yield{Request: inv, Options: wamp.Dict{}, Arguments: wamp.List{token}})
+	w.Wait()
+	w.Advance(20 * time.Millisecond)
+	caller.Resume()
+	w.Advance(3 * time.Second)
+	c.Hit("RP21")
+	finals := 0
+	var last string
+	for _, o := range caller.Take() {
+		switch m := o.Msg.(type) {
+		case *wamp.Result:
+			if m.Request == 7001 {
+				if pr, _ := m.Details["progress"].(bool); !pr {
+					finals++
+					if len(m.Arguments) == 1 {
+						last, _ = canon.AsStr(m.Arguments[0])
+					}
+				}
+			}
+		case *wamp.Error:
+			if m.Request == 7001 {
+				c.Fail("RP21", "blocked caller's call ended with an error", "the caller's queue (%d) was full when the final YIELD arrived and it read again 20 ms later; it got ERROR %s", q, m.Error)
+				return
+			}
+		}
+	}
+	if finals != 1 || last != token {
+		c.Fail("RP21", "final result lost for a caller that was blocked for 20 ms", "the caller's queue (%d) was full when the callee's final YIELD was processed; it read again 20 ms later (the dealer retries for a minute) and received %d final RESULTs for the call (payload %q, expected %q)", q, finals, last, token)
+	}
+}
+
+
+// blockedCalleeEpilogue: a callee that announces call_canceling has an
+// invocation pending and has stopped reading with a full queue when the caller
+// sends CANCEL. In mode kill the INTERRUPT cannot be queued, so waiting for the
+// callee's answer would never end: the documented behaviour is that the call
+// is ended for the caller at once (as in skip), in every mode.
+func blockedCalleeEpilogue(c *Case, w *sim.World, realm string) {
+	mode := []string{"kill", "killnowait", "skip"}[c.Index/2%3]
+	callee := w.AddPuppet(sim.PuppetSpec{Kind: sim.Local, QSize: 2})
+	caller := w.AddPuppet(sim.PuppetSpec{Kind: sim.Local})
+	filler := w.AddPuppet(sim.PuppetSpec{Kind: sim.Local})
+	for _, p := range []*sim.Puppet{callee, caller, filler} {
+		p.Join(realm, wamp.Dict{"roles": sim.AllFeatures()})
+		if p.SID == 0 {
+			return
+		}
+	}
+	callee.Send(&wamp.Register{Request: 1, Options: wamp.Dict{}, Procedure: "zz.epilogue.slow"})
+	callee.Send(&wamp.Subscribe{Request: 2, Options: wamp.Dict{}, Topic: "zz.epilogue.fill"})
+	w.Wait()
+	caller.Send(&wamp.Call{Request: 7002, Options: wamp.Dict{}, Procedure: "zz.epilogue.slow", Arguments: wamp.List{"slow"}})
+	w.Wait()
+	got := false
+	for _, o := range callee.Take() {
+		if _, ok := o.Msg.(*wamp.Invocation); ok {
+			got = true
+		}
+	}
+	if !got {
+		return
+	}
+	callee.Stall()
+	for i := 0; i < 6; i++ {
+		filler.Send(&wamp.Publish{Request: wamp.ID(10 + i), Options: wamp.Dict{}, Topic: "zz.epilogue.fill", Arguments: wamp.List{i}})
+	}
+	w.Wait()
+	caller.Take()
+	t0 := w.Now()
+	caller.Send(&wamp.Cancel{Request: 7002, Options: wamp.Dict{"mode": mode}})
+	w.Wait()
+	c.Hit("CN7")
+	ended := false
+	for _, o := range caller.Take() {
+		if e, ok := o.Msg.(*wamp.Error); ok && e.Request == 7002 && e.Type == wamp.CALL {
+			ended = string(e.Error) == "wamp.error.canceled"
+			if !ended {
+				c.Fail("CN7", "cancelled call ended with an unexpected error", "CANCEL mode %s for a call whose callee cannot be interrupted (queue full): ERROR %s", mode, e.Error)
+				return
+			}
+		}
+	}
+	if !ended || w.Now() != t0 {
+		c.Fail("CN7", "CANCEL not answered when the callee cannot be interrupted", "CANCEL mode %s for a call whose callee has stopped reading with a full queue (the INTERRUPT cannot be queued): no ERROR wamp.error.canceled for the caller at quiescence (virtual %v after the CANCEL)", mode, w.Now()-t0)
+	}
+	callee.Resume()
+	w.Wait()
 }
